@@ -220,10 +220,10 @@ func c09Scenarios(tier string) []engine.Scenario {
 	}
 	var out []engine.Scenario
 	eas := []time.Duration{90 * time.Second, 2 * time.Second}
-	wls := [][]string{{"theme"}, nil}
+	wls := [][]string{{"theme", "guid"}, nil} // ("guid" contains "uid": whitelist membership is by whole key)
 	if tier == "thorough" {
 		eas = []time.Duration{time.Hour, 90 * time.Second, 2 * time.Second}
-		wls = [][]string{nil, {"theme"}, {"theme", "csrf"}}
+		wls = [][]string{nil, {"theme", "guid"}, {"theme", "csrf"}}
 	}
 	for _, ea := range eas {
 		for _, wl := range wls {
